@@ -212,10 +212,6 @@ UNITS["C13"] = [
     _k("c13_from_keyword_never_eof", "fea-rs", "fea-rs/src/parse/lexer/lexeme.rs", ["fea_rs::parse::lexer::lexeme::Kind::from_keyword"], "bounded",
        "every byte word of length <= 26 (longest keyword has 25 bytes)", "|word| <= 26", "result is never Some(Eof/Tombstone/Ident/Whitespace); empty word => None  (the contract the Verus proof assumes for this external_body function)", timeout_s=900),
     _k("c13_lexer_cover", "fea-rs", "fea-rs/src/parse/lexer.rs", [], "complete", "", "", "identifier, non-ASCII character, number reachable in the companion's input generator", kind="cover", timeout_s=1800, on_demand=True),
-], "bounded",
-       "every valid UTF-8 input of <= 2 bytes; the parser is driven by eat_raw until Eof (no grammar)", "valid UTF-8, |input| <= 2",
-       "the sink has consumed exactly |input| bytes (every lexeme, trivia included, forwarded exactly once); token texts of the tree add up to |input|; at most one eat_raw per byte",
-       tiers=("thorough",), timeout_s=3600),
 ]
 
 # C19 cross-listing: MetricsBuilder::update's i16 clamps / overflow freedom are also a C19 obligation
